@@ -247,6 +247,9 @@ class Interp:
             if isinstance(s, ast.Assign) and any(isinstance(t, ast.Name) and t.id == ident for t in s.targets):
                 if isinstance(s.value, (ast.Lambda, ast.Constant)):
                     return self.ev(s.value, Env())
+                # constant arithmetic (`LIMIT = 2**63`, `MASK = (1 << 8) - 1`)
+                if all(isinstance(x, (ast.Constant, ast.BinOp, ast.UnaryOp, ast.operator, ast.unaryop)) for x in ast.walk(s.value)):
+                    return self.ev(s.value, Env())
         raise AnalysisError(f"absint: unknown name `{ident}` (no model supplied)")
 
     # ------------------------------------------------------------------ statements
